@@ -2,6 +2,16 @@
 import json, os
 V = os.path.dirname(os.path.dirname(os.path.abspath(__file__)))
 CLAIMED = {
+ "C15": dict(
+   text="Proof: with erf's defining facts as explicit hypotheses (erf is not in Coq's library), the closed-form cdf IS the integral of the Maxwellian pdf from 0 to v, lies in "
+        "[0,1] and is non-decreasing in v; full fallback gives 1; the sigmoid lies in [0,1]; linear interpolation of the fallback fraction stays between its neighbours; "
+        "and the kick loop, for ANY retention values in [0,1] and any bins, scales populated bins (mean preserved, nothing increases), leaves bins below 0.1 objects "
+        "untouched and reports exactly the mass removed. Float instance vs the implementation: sigmoid, fallback interpolation (sorted table columns regenerated), kick "
+        "loop with injected retention (bit-exact), Maxwellian retention (closed form since fix e8173a9) at 1e-9; independent table reading as oracle.",
+   design="8/C15", technique="Coq/Coquelicot proofs (erf axiomatised by hypotheses, not by Axiom) + bit-exact / 1e-9 float correspondence + oracle",
+   note="Trusted: Coq kernel; Reals/Coquelicot axioms (evidence); the three stated facts about erf are hypotheses of the theorems (scipy.special.erf is trusted to satisfy "
+        "them); FloatFun erf/exp; interp1d modelled from scipy's algorithm on pre-sorted columns; harness."),
+
  "C20": dict(
    text="Proof (model of the code after three fix commits): the moment helpers are the Riemann integrals of x^-a and x*x^-a for EVERY exponent (logarithmic cases exactly at "
         "1 and 2), the continuity constants make the density continuous at every interior limit for any number of pieces, constants and normalisation are positive, the "
